@@ -208,18 +208,57 @@ def showMisc (m : MiscPrinted) : String :=
      | none => "-"
      | some fs => "=" ++ Proto.joinWith "," (fs.map fun (i, o, z) => s!"{i}:{o}:{z}"))
 
-def showMapsOut (m : MapsOut) : String :=
-  "ok [" ++ Proto.joinWith ";" (m.maps.entries.map Encode.showMapEntry) ++ "]|" ++
-    Proto.joinWith "," (m.probes.map fun (a, r) => match r with
+/-- lookups: in full for up to 160 of them, else their number and a hash -/
+def showProbes (ps : List (Nat × Option Nat)) : String :=
+  if ps.length ≤ 160 then
+    Proto.joinWith "," (ps.map fun (a, r) => match r with
       | none => s!"{a}:~"
       | some i => s!"{a}:{i}")
+  else
+    let h := ps.foldl (fun h (a, r) => (h * 1000003 + a % 4294967296 + 7 * (match r with
+      | none => 0
+      | some i => i + 1)) % 4294967296) 0
+    s!"#{ps.length}:{h}"
+
+def showIndices (is : List Nat) : String :=
+  if is.length ≤ 160 then Proto.joinWith "," (is.map toString)
+  else s!"#{is.length}:{is.foldl (fun h i => (h * 1000003 + i + 1) % 4294967296) 0}"
+
+def showMapsOut (m : MapsOut) : String :=
+  "ok [" ++ Proto.joinWith ";" (m.maps.entries.map Encode.showMapEntry) ++ "]|" ++ showProbes m.probes
+
+def showUnified (u : UnifiedOut) : String :=
+  (match u.kind with
+   | .info => "info"
+   | .maps => "maps") ++ s!"/{u.count}/[{showIndices u.byAddr}]/{showProbes u.probes}"
+
+def showOptStr : Option String → String
+  | none => "-"
+  | some s => "=" ++ s
+
+def showModOut (m : ModOut) : String :=
+  s!"{showOptStr m.ids.debugId}/{showOptStr m.ids.codeId}/{showOptName m.ids.debugFile}/{showOptStr m.ids.version}/{m.hexPrinted}"
 
 def showMore (x : More) : String :=
   Proto.joinWith " | " [
     "misc:" ++ showRes showMisc x.misc,
     "maps:" ++ (match x.maps with
       | .error site => "PANIC:" ++ mapsPanicClass site
-      | .ok r => showRes showMapsOut r)]
+      | .ok r => showRes showMapsOut r),
+    "uni:" ++ (match x.unified with
+      | .error site => "PANIC:" ++ mapsPanicClass site
+      | .ok none => "-"
+      | .ok (some u) => showUnified u),
+    "osp:" ++ (match x.osParts with
+      | none => "-"
+      | some (v, b) => showName v ++ "/" ++ showOptName b),
+    "ids:" ++ (match x.modules with
+      | none => "-"
+      | some ms => showItems showModOut ms),
+    "uids:" ++ (match x.unloaded with
+      | none => "-"
+      | some us => showItems id us),
+    "soft:" ++ showRes (fun n => s!"ok {n}") x.softErrors]
 
 def renderWhole (r : M (Except Err Whole)) : Option String :=
   match r.res with
